@@ -119,3 +119,4 @@ Check (C19_init_segment_oversize_dimensions : (forall c,
   fc_timescale c < 4294967296 ->
   len (fc_sps c) < 65536 -> len (fc_pps c) < 65536 ->
   failed_C19_init (fc_width c) (fc_height c) (fc_timescale c) (init_segment_of (fmuxer_new c)) = [3; 9])%type).
+Check (C19_default_init_segment_conforms : (failed_C19_init 1920 1080 90000 (init_segment_of (fmuxer_new frag_config_default)) = [])%type).
